@@ -8,7 +8,7 @@
    An index map sends a voxel index of the result to [Some] index of the receiver or to
    [None] (= new voxel, padding). *)
 From Coq Require Import String ZArith List Bool QArith Qcanon.
-From HD Require Import C08_Model C08_Proofs C08_Proofs_Step C08_Proofs_More C08_Proofs_Qc C08_Proofs_Ext C08_Proofs_Orient C08_Proofs_Top C08_Proofs_Inv.
+From HD Require Import C08_Model C08_Proofs C08_Proofs_Step C08_Proofs_More C08_Proofs_Qc C08_Proofs_Ext C08_Proofs_Orient C08_Proofs_Top C08_Proofs_Inv C08_Proofs_Scale.
 Import ListNotations.
 Open Scope string_scope.
 Open Scope Z_scope.
@@ -415,6 +415,76 @@ Theorem C08_queries_do_not_change_history : forall evs A0 v g,
   op_outputs evs (run_events_from A0 v g evs) = run_hist_from v g (ops_of evs).
 Proof. intros. split; [apply query_outputs_aligned|apply queries_do_not_change_history]. Qed.
 Print Assumptions C08_queries_do_not_change_history.
+
+(* 15. NO LENGTH SCALE.  [svol k v] / [sgeom k g] / [saff k A] = the object with every entry of its
+      affine (the three columns and the origin) multiplied by k: the same voxels measured in another unit
+      of length, e.g. a whole-slide volume at 0.25 um per pixel = 1/4000 of a volume with unit pixels.
+      [PosScale k] = "k > 0" as far as the order test can tell: multiplying both sides of a comparison
+      by k does not change it (for the executable instance exactly 0 < k, C08_positive_scale_Qc).
+      For every such k and EVERY operation of the alphabet: the operation is refused on the scaled
+      receiver iff it is refused on the unscaled one, with the same error class; if accepted it has the
+      same index map, shape, channels and array, and its affine is k times the affine obtained from the
+      unscaled receiver - entry by entry, so no entry is ever compared with, rounded to, or replaced
+      because of an absolute length.  (Found missing by seeded regression C08-m10: entries below 1e-5 mm
+      were zeroed after a permutation.) *)
+Theorem C08_step_has_no_length_scale :
+  forall R rO rI radd rmul rsub ropp inj ltb Vx padval,
+  Zring R rO rI radd rmul rsub ropp inj ->
+  forall k, PosScale R rmul ltb k ->
+  forall v o,
+  step_tr R rO radd rmul rsub ropp inj ltb Vx padval (svol R rmul Vx k v) o =
+  match step_tr R rO radd rmul rsub ropp inj ltb Vx padval v o with
+  | Ok (v', f) => Ok (svol R rmul Vx k v', f)
+  | Err e => Err e
+  end.
+Proof. exact top_step_scale. Qed.
+Print Assumptions C08_step_has_no_length_scale.
+
+(* 16. the same for EVERY finite history, of a volume and of its geometry-only object: the composed
+      index map does not depend on the scale and the final object is the k-fold of the final object
+      of the unscaled history *)
+Theorem C08_history_has_no_length_scale :
+  forall R rO rI radd rmul rsub ropp inj ltb Vx padval,
+  Zring R rO rI radd rmul rsub ropp inj ->
+  forall k, PosScale R rmul ltb k ->
+  forall ops v,
+  let r := run_tr R rO radd rmul rsub ropp inj ltb Vx padval v ops in
+  run_tr R rO radd rmul rsub ropp inj ltb Vx padval (svol R rmul Vx k v) ops = (svol R rmul Vx k (fst r), snd r) /\
+  grun R rO radd rmul rsub ropp inj ltb Vx (sgeom R rmul k (geom_of R Vx v)) ops =
+    sgeom R rmul k (grun R rO radd rmul rsub ropp inj ltb Vx (geom_of R Vx v) ops).
+Proof. exact top_history_scale. Qed.
+Print Assumptions C08_history_has_no_length_scale.
+
+(* 17. the two order-dependent observations of an affine - closest patient orientation and
+      handedness - do not see the scale *)
+Theorem C08_orientation_and_handedness_ignore_scale :
+  forall R rO rI radd rmul rsub ropp inj ltb,
+  Zring R rO rI radd rmul rsub ropp inj ->
+  forall k, PosScale R rmul ltb k ->
+  forall A,
+  closest R rO ropp ltb (saff R rmul k A) = closest R rO ropp ltb A /\
+  is_left R rO radd rmul rsub ltb (saff R rmul k A) = is_left R rO radd rmul rsub ltb A.
+Proof. exact top_observations_scale. Qed.
+Print Assumptions C08_orientation_and_handedness_ignore_scale.
+
+Theorem C08_positive_scale_Qc : forall k : Qc,
+  PosScale Qc Qcmult qc_ltb k <-> qc_ltb (Q2Qc 0) k = true.
+Proof. exact PosScale_Qc. Qed.
+Print Assumptions C08_positive_scale_Qc.
+
+(* non-vacuity of 15-17: a slide volume at 0.25 um per pixel, tilted by 1.15 degrees: off-axis entries
+   of 1/200020 mm (5e-6 mm) and an origin component of 3e-6 mm; it is the 1/4000-fold of a volume
+   with unit pixels; after a cyclic permutation and a handedness fix by swapping axes the tiny
+   entries are at their new places, unchanged *)
+Example C08_example_micro_scale :
+  qc_ltb (Q2Qc 0%Q) ex_k = true /\
+  this (vy (c0 (v_aff _ _ ex_micro))) = (1 # 200020)%Q /\ this (vz (tr (v_aff _ _ ex_micro))) = (3 # 1000000)%Q /\
+  let r := run_tr Qc (Q2Qc 0) Qcplus Qcmult Qcminus Qcopp qc_inj qc_ltb Q q_padval ex_micro ex_ops_scale in
+  v_shape _ _ (fst r) = (2, 3, 2) /\ snd r (1, 2, 0) = Some (0, 2, 1) /\
+  this (vy (c2 (v_aff _ _ (fst r)))) = (1 # 200020)%Q /\ this (vx (c1 (v_aff _ _ (fst r)))) = (-1 # 200020)%Q /\
+  this (vz (tr (v_aff _ _ (fst r)))) = (3 # 1000000)%Q.
+Proof. exact ex_scale. Qed.
+Print Assumptions C08_example_micro_scale.
 
 (* ---- non-vacuity of 10-12 *)
 Example C08_example_dominant : Dom Qc (Q2Qc 0) Qcopp qc_ltb ex_aff (2, true) (1, false) (0, false).
